@@ -5,6 +5,7 @@ import (
 	"fmt"
 	"math/rand"
 	"reflect"
+	"strings"
 	"time"
 
 	"verif/harness/zoo"
@@ -132,6 +133,12 @@ func init() {
 				reflect.StructField{Name: "K", Type: tInt})
 		}},
 		{"recmap", func(r *rand.Rand, b *builder) reflect.Type { return reflect.TypeOf(zoo.RecMap{}) }},
+		{"name-collisions", func(r *rand.Rand, b *builder) reflect.Type {
+			fs := []reflect.StructField{{Name: "A", Type: b.core(r, 0)}, {Name: "Ab", Type: b.core(r, 0), Tag: `json:"a"`}, {Name: "AB", Type: tInt, Tag: `json:"A"`},
+				{Name: "X", Type: tStr, Tag: `json:"ab"`}, {Name: "Y", Type: tInt, Tag: `json:"Ab,omitempty"`}, {Name: "Abc", Type: tInt}}
+			r.Shuffle(len(fs), func(i, j int) { fs[i], fs[j] = fs[j], fs[i] })
+			return reflect.StructOf(fs[:2+r.Intn(5)])
+		}},
 		{"unmarshaler-types", func(r *rand.Rand, b *builder) reflect.Type {
 			return pick(r, reflect.TypeOf(zoo.UP{}), reflect.TypeOf(zoo.UT{}), reflect.TypeOf(zoo.UTS("")), reflect.TypeOf(zoo.UTI(0)))
 		}},
@@ -257,6 +264,7 @@ func (b *builder) typ(r *rand.Rand, depth int, ptrDepth int) reflect.Type {
 		n := r.Intn(max + 1)
 		var fs []reflect.StructField
 		used := map[string]bool{}
+		usedJSON := map[string]bool{}
 		for i := 0; i < n; i++ {
 			nm := fieldNames[r.Intn(len(fieldNames))]
 			if used[nm] {
@@ -265,8 +273,10 @@ func (b *builder) typ(r *rand.Rand, depth int, ptrDepth int) reflect.Type {
 			used[nm] = true
 			ft := b.typ(r, depth-1, 0)
 			tag := ""
+			tn0 := ""
 			if r.Intn(2) == 0 {
 				tn := tagNames[r.Intn(len(tagNames))]
+				tn0 = tn
 				opts := ""
 				if r.Intn(3) == 0 && !implementsMarshaler(ft) && !(ft.Kind() == reflect.Array && ft.Len() == 0) {
 					opts += ",omitempty"
@@ -278,6 +288,18 @@ func (b *builder) typ(r *rand.Rand, depth int, ptrDepth int) reflect.Type {
 					tn, opts = "-", ""
 				}
 				tag = fmt.Sprintf(`json:"%s%s"`, tn, opts)
+			}
+			// core structs have JSON names that are unique even case-insensitively; colliding
+			// names are the "name-collisions" feature
+			jn := nm
+			if tag != "" && tn0 != "" {
+				jn = tn0
+			}
+			if tag != `json:"-"` {
+				if usedJSON[strings.ToLower(jn)] {
+					continue
+				}
+				usedJSON[strings.ToLower(jn)] = true
 			}
 			fs = append(fs, reflect.StructField{Name: nm, Type: ft, Tag: reflect.StructTag(tag)})
 		}
